@@ -35,16 +35,16 @@ type c11Sensor struct {
 }
 
 type c11Curve struct {
-	Id        string      `json:"id"`
-	Kinds     []string    `json:"kinds"` // normally one of linear | pid | function
-	Sensor    string      `json:"sensor,omitempty"`
-	StepsForm string      `json:"stepsForm,omitempty"` // "" (min/max) | list | map | emptyList | emptyMap | single
-	Steps     []stepPair  `json:"steps,omitempty"`
-	Min       int         `json:"min,omitempty"`
-	Max       int         `json:"max,omitempty"`
-	FnType    string      `json:"fnType,omitempty"`
-	Members   []string    `json:"members"`
-	PID       [4]float64  `json:"pid,omitempty"` // setPoint p i d
+	Id        string     `json:"id"`
+	Kinds     []string   `json:"kinds"` // normally one of linear | pid | function
+	Sensor    string     `json:"sensor,omitempty"`
+	StepsForm string     `json:"stepsForm,omitempty"` // "" (min/max) | list | map | emptyList | emptyMap | single
+	Steps     []stepPair `json:"steps,omitempty"`
+	Min       int        `json:"min,omitempty"`
+	Max       int        `json:"max,omitempty"`
+	FnType    string     `json:"fnType,omitempty"`
+	Members   []string   `json:"members"`
+	PID       [4]float64 `json:"pid,omitempty"` // setPoint p i d
 }
 
 type c11Fan struct {
